@@ -9,6 +9,7 @@ import (
 	"encoding/json"
 	"fmt"
 	"io"
+	"strings"
 
 	"verifharness/internal/core"
 	"verifharness/internal/imggen"
@@ -27,7 +28,7 @@ type c08Case struct {
 	File      string   `json:"input_base64"`
 }
 
-var c08FixedSchedules = []string{"1", "2", "3", "7", "8", "4095", "4096", "4097", "data+eof", "1+data+eof", "4096+data+eof", "zero-nil", "zero-nil-3+all"}
+var c08FixedSchedules = []string{"1", "2", "3", "7", "8", "4095", "4096", "4097", "data+eof", "1+data+eof", "4096+data+eof", "zero-nil", "zero-nil-3+all", "kind:1", "kind:2", "kind:3", "kind:4", "kind:5", "kind:6"}
 
 func c08Schedules(rng *core.RNG, thorough bool) []string {
 	s := append([]string{}, c08FixedSchedules...)
@@ -117,9 +118,19 @@ var c08ICCFronts = []string{"short", "short1", "short+data+eof", "all+data+eof",
 
 func c08CheckLoader(data []byte, loader, schedule string, seed uint64) (kind, msg string, short bool) {
 	base := summarise(loadWith(loader, bytes.NewReader(data)))
-	s := c08Source(data, schedule, seed)
-	got := summarise(loadWith(loader, s))
-	short = s.ShortInside > 0
+	var got mdSummary
+	if strings.HasPrefix(schedule, "kind:") {
+		// the same bytes handed over in another kind of reader (positioned inside a larger
+		// *bytes.Reader / *strings.Reader, buffered, a *bytes.Buffer, Read only, a section)
+		var k int
+		fmt.Sscanf(schedule, "kind:%d", &k)
+		got = summarise(loadWith(loader, readerOfKind(data, k)))
+		schedule = "reader kind " + readerKindNames[k%len(readerKindNames)]
+	} else {
+		s := c08Source(data, schedule, seed)
+		got = summarise(loadWith(loader, s))
+		short = s.ShortInside > 0
+	}
 	if got.Panic != "" && base.Panic == "" {
 		return "panic", fmt.Sprintf("%s.Load panicked under schedule %s: %s", loader, schedule, got.Panic), short
 	}
@@ -201,6 +212,47 @@ func c08Inputs(seed int64, thorough bool) (files []c08Input, profiles []c08Input
 			f = c05WebP("c08", core.Pick(rng, []string{"VP8", "VP8L", "VP8X"}), uint32(1+rng.Intn(9000)), uint32(1+rng.Intn(9000)), rng, uint8(rng.Intn(256)))
 		}
 		files = append(files, c08Input{f.Name, f.Bytes, f.Truth.Format, nil})
+	}
+	// truncations of larger generated files (600 .. 9000 bytes: beyond any small block size a reader
+	// might top its reads up to), at structure boundaries and at seeded offsets
+	for i := 0; i < 36; i++ {
+		var f genFile
+		switch i % 3 {
+		case 0:
+			s := pngSpecFor(uint32(1+rng.Intn(5000)), uint32(1+rng.Intn(5000)), 2, 8, 0, rng)
+			s.Pre = []imggen.PNGChunk{{Type: "tEXt", Data: append([]byte("k\x00"), []byte(latin1(rng, 500+rng.Intn(3000)))...)}, {Type: "gAMA", Data: []byte{0, 0, 0xb1, 0x8f}}}
+			if i%2 == 0 {
+				s.ICC = &imggen.PNGICC{Name: "p", Profile: profileBytes(rng, 300+rng.Intn(5000), 2), Level: 6}
+			}
+			b, t := s.Build()
+			f = genFile{"c08-large-png", b, t}
+		case 1:
+			f = c05JPEG("c08-large", 1+rng.Intn(9000), 1+rng.Intn(9000), rng.Bool(), 3, jpegSamplings[1], rng, 24)
+		case 2:
+			f = c05WebP("c08-large", "VP8X", uint32(1+rng.Intn(9000)), uint32(1+rng.Intn(9000)), rng, 0x20)
+		}
+		cuts := map[int]bool{}
+		for _, fd := range f.Truth.Fields {
+			for _, c := range []int{fd.Off - 4, fd.Off, fd.Off + fd.Len} {
+				if c > 0 && c < len(f.Bytes) {
+					cuts[c] = true
+				}
+			}
+		}
+		for k := 0; k < 6; k++ {
+			cuts[1+rng.Intn(len(f.Bytes)-1)] = true
+		}
+		var order []int
+		for c := range cuts {
+			order = append(order, c)
+		}
+		sortInts(order)
+		if len(order) > 40 {
+			order = order[len(order)-40:]
+		}
+		for _, c := range order {
+			files = append(files, c08Input{fmt.Sprintf("%s %d bytes[:%d]", f.Name, len(f.Bytes), c), f.Bytes[:c], f.Truth.Format, nil})
+		}
 	}
 	// JPEGs whose ICC chunk is followed by segments larger than any read-ahead buffer
 	for i := 0; i < 24; i++ {
